@@ -410,7 +410,13 @@ class Schema(dict, metaclass=LogicalMeta):
             raise exc.DeleteError(
                 f"{self.__name__}: Attempt to popitem in immutable schema"
             )
-        return super().popitem()
+        if not self:
+            return super().popitem()    # KeyError: dictionary is empty
+        key = next(reversed(self))
+        value = dict.__getitem__(self, key)
+        # go through the deleter: required / immutable fields cannot be removed
+        self.__delitem__(key)
+        return key, value
 
     def pop(self, key: str, default=unprovided):
         if self.__options__.immutable:
